@@ -394,3 +394,57 @@ def template_globals_obligation(prop="C17", replay=None):
         if replay:
             r.replay = replay()
     return [r]
+
+
+def encoding_forwarded_obligation(prop="C17", replay=None):
+    """every page of the tree is read with the project's `encoding`: each `PageNode(...)` construction and the recursive `get_page_tree(...)` call of get_page_tree passes
+    `encoding` on (by keyword, or positionally: sixth argument of PageNode, seventh of get_page_tree)."""
+    import ast
+    from harness import loader
+    from harness.core import OR, PROVED, REFUTED, UNKNOWN
+    oid = f"{prop}.S.pagetree.get_page_tree.every_page_is_read_with_the_configured_encoding"
+    fn = loader.find_def("ford.pagetree", "get_page_tree")
+    calls = [c for c in ast.walk(fn) if isinstance(c, ast.Call) and isinstance(c.func, ast.Name) and c.func.id in ("PageNode", "get_page_tree")]
+    if len(calls) < 3:
+        return [OR(id=oid, status=UNKNOWN, kind="S", target="ford.pagetree.get_page_tree", detail=f"expected the index page, the other pages and the recursion: {len(calls)} constructions found")]
+
+    def passes(c):
+        if any(k.arg == "encoding" and ast.unparse(k.value) == "encoding" for k in c.keywords):
+            return True
+        pos = 5 if c.func.id == "PageNode" else 6          # positions of `encoding` in the two signatures
+        return pos is not None and len(c.args) > pos and ast.unparse(c.args[pos]) == "encoding"
+    bad = [(c.lineno, ast.unparse(c)[:90]) for c in calls if not passes(c)]
+    r = OR(id=oid, status=REFUTED if bad else PROVED, kind="S", role="pre", backend="ast", target="ford.pagetree.get_page_tree",
+           desc=f"each of the {len(calls)} PageNode / get_page_tree calls of get_page_tree passes `encoding`")
+    if bad:
+        r.witness = {"calls": bad}
+        r.detail = f"line {bad[0][0]}: `{bad[0][1]}` reads its page as utf-8 whatever the project says: a page with other characters is reported and skipped"
+        if replay:
+            r.replay = replay()
+    return [r]
+
+
+def location_obligation(prop="C19", replay=None):
+    """a static page is written to `<output>/page/<location>/<name>.html`: `location` is the directory of the page's source *relative to the page directory* - relpath(path.parent,
+    topdir), which never starts with `..` for a file below topdir (the walk of get_page_tree guarantees that, also under {prop}).  The swapped form relpath(topdir, path.parent)
+    climbs out of the output directory."""
+    import ast
+    from harness import loader
+    from harness.core import OR, PROVED, REFUTED, UNKNOWN
+    oid = f"{prop}.S.pagetree.PageNode.__init__.location_is_the_source_directory_relative_to_the_page_directory"
+    fn = loader.find_def("ford.pagetree", "PageNode.__init__")
+    sets = [n for n in ast.walk(fn) if isinstance(n, ast.Assign) and any(ast.unparse(t) == "self.location" for t in n.targets)]
+    rel = [n for n in sets if "relpath" in ast.unparse(n.value)]
+    if len(rel) != 1:
+        return [OR(id=oid, status=UNKNOWN, kind="S", target="ford.pagetree.PageNode.__init__", detail=f"{len(rel)} assignments of a relpath to self.location")]
+    call = [c for c in ast.walk(rel[0].value) if isinstance(c, ast.Call) and ast.unparse(c.func).endswith("relpath")][0]
+    args = [ast.unparse(a) for a in call.args]
+    ok = args == ["path.parent", "self.topdir"] and all(ast.unparse(n.value) in ("Path()", "Path('.')", "pathlib.Path()") or n is rel[0] for n in sets)
+    r = OR(id=oid, status=PROVED if ok else REFUTED, kind="S", role="post", backend="ast", target="ford.pagetree.PageNode.__init__",
+           desc=f"`self.location = Path(os.path.relpath({', '.join(args)}))` (the other assignment: the top page, `Path()`)")
+    if not ok:
+        r.witness = {"relpath_arguments": args}
+        r.detail = "pages below the first level are placed relative to the wrong directory: from the second level on they are written outside the output directory"
+        if replay:
+            r.replay = replay()
+    return [r]
